@@ -1,4 +1,5 @@
 import CedarVerif.Lemmas.SchemaSyntax
+import CedarVerif.Lemmas.SchemaDecl
 /-
 C09 — the JSON and the Cedar schema syntaxes denote the same schema.
 
@@ -15,8 +16,16 @@ What is proved here (about the model `Cedar/SchemaSyntax.lean`, tied to the code
                             four-way run found in the implementation: fmt.rs checks clashes only in non-empty namespaces);
   * `translation_preserves_types_partial`  the two combined: a resolvable type expression re-reads, after translation, as an
                             expression that resolves to the same thing.
-NOT modelled (covered only by the four-way differential run of harness/src/c09.rs): the grammar of declarations (entity / action /
-type / namespace, multi-name declarations, `in`, `appliesTo`, `tags`, `enum`), annotations, the lexer and string escapes, the
+  * `decl_roundtrip`        DECLARATION LEVEL (`Cedar/SchemaDecl.lean`): for standard entity declarations — names (one or several),
+                            `memberOf` list, shape = attribute declarations with optional (`?`) fields, `tags` type — the parser of the
+                            grammar's `Entity` production inverts the printer of fmt.rs (` in [..]` only when non-empty, ` = {..}` only
+                            for a non-empty shape, ` tags T` when present);
+  * `decl_roundtrip_json`   a JSON `entityTypes` entry → printed → parsed → JSON entries = the same entry with every type leaf an
+                            entity-or-common reference (shape and tags as in `type_roundtrip_json`, `memberOf` unchanged);
+  * `decl_parser_accepts_more`  the forms only the Cedar syntax has (several names, no `=`, a bare path after `in`, `{}`) parse to the
+                            expected data (examples).
+NOT modelled (covered only by the four-way differential run of harness/src/c09.rs): the other declarations (enum entities, action
+declarations with `in` / `appliesTo` / context, common-type and namespace declarations), annotations, the lexer and string escapes, the
 collision / unconvertible-shape checks of fmt.rs, JSON (de)serialisation, and everything `ValidatorSchema` construction does after
 name resolution (common-type inlining, cycle detection, hierarchy closure, action entities).
 -/
@@ -165,5 +174,79 @@ theorem translation_preserves_types_partial (env : Env) (ok : EnvOK env) (hres :
     (ns : List String) (τ : TyJson) (hw : WFJ τ) (hs : SortedT τ) (r : RTy) (h : resolveTy env ns τ = some r) :
     ∃ τ', parseTy (printTy τ) = some τ' ∧ resolveTy env ns τ' = some r :=
   ⟨eocForm τ, type_roundtrip_json τ hw hs, resolve_stable env ok hres ns τ r h⟩
+
+/-! ## declaration level: standard entity declarations -/
+
+/-- parse ∘ print = id on standard entity declarations (any number of names ≥ 1, any `memberOf` list, any shape with optional
+fields, optional tags), for names the grammar's `Ident` accepts -/
+theorem decl_roundtrip (d : EntityDecl) (h : WFD d) : parseEntityDecl (printEntity d) = some d := by
+  have := parseEntity_print d h ((printEntity d).length + 1) (declFuel_le_length d) []
+  simp only [List.append_nil] at this
+  simp [parseEntityDecl, this]
+
+/-- and with any continuation (the next declaration): the parser stops exactly after the `;` -/
+theorem decl_roundtrip_prefix (d : EntityDecl) (h : WFD d) (fuel : Nat) (hf : declFuel d ≤ fuel) (rest : List Tok) :
+    parseEntity fuel (printEntity d ++ rest) = some (d, rest) :=
+  parseEntity_print d h fuel hf rest
+
+/-- JSON entry → Cedar tokens → JSON entries -/
+theorem decl_roundtrip_json (name : String) (e : EntityTypeJ) (hn : validId name = true) (hr : name ≠ "__cedar")
+    (hm : ∀ q ∈ e.memberOf, ∀ c ∈ q.comps, validId c = true)
+    (hws : WFJ (.record e.shape)) (hss : SortedT (.record e.shape))
+    (hwt : ∀ t, e.tags = some t → WFJ t ∧ SortedT t) :
+    (parseEntityDecl (printEntity (e.toDecl name))).map EntityDecl.toJsonTypes =
+      some [(name, { memberOf := e.memberOf, shape := eocFormAttrs e.shape, tags := e.tags.map eocForm })] := by
+  have hwf : WFD (e.toDecl name) := by
+    refine ⟨by simp [EntityTypeJ.toDecl], ?_, hm, ?_, ?_⟩
+    · intro n hn'; simp [EntityTypeJ.toDecl] at hn'; subst hn'; exact ⟨hn, hr⟩
+    · have := wfc_toCedar (.record e.shape) hws
+      simpa [toCedar, WFC, EntityTypeJ.toDecl] using this
+    · intro t ht
+      simp only [EntityTypeJ.toDecl, Option.map_eq_some_iff] at ht
+      obtain ⟨tj, htj, rfl⟩ := ht
+      exact wfc_toCedar tj (hwt tj htj).1
+  rw [decl_roundtrip _ hwf]
+  have hshape : collectJ .nil (toCedarAttrs e.shape) = eocFormAttrs e.shape := by
+    have := normalize_eq_eocForm (.record e.shape) hss
+    simpa [toCedar, toJson, eocForm] using this
+  have htags : (e.tags.map toCedar).map toJson = e.tags.map eocForm := by
+    cases ht : e.tags with
+    | none => rfl
+    | some t => simp [normalize_eq_eocForm t (hwt t ht).2]
+  simp [EntityDecl.toJsonTypes, EntityTypeJ.toDecl, hshape, htags]
+
+-- non-vacuity: every optional part present, an optional field, a quoted attribute name, a qualified parent
+example : parseEntityDecl (printEntity ⟨["User"], [⟨["NS"], "Group"⟩, ⟨[], "Team"⟩],
+      .cons "name" true (.ident ⟨[], "String"⟩) (.cons "has space" false (.set (.ident ⟨[], "Long"⟩)) .nil),
+      some (.set (.ident ⟨[], "String"⟩))⟩) =
+    some ⟨["User"], [⟨["NS"], "Group"⟩, ⟨[], "Team"⟩],
+      .cons "name" true (.ident ⟨[], "String"⟩) (.cons "has space" false (.set (.ident ⟨[], "Long"⟩)) .nil),
+      some (.set (.ident ⟨[], "String"⟩))⟩ := by
+  apply decl_roundtrip
+  refine ⟨by simp, ?_, ?_, ?_, ?_⟩ <;> simp [WFA, WFC, QName.comps] <;> decide
+
+/-- what is printed: `entity User in [NS::Group, Team] = { name : String, "has space" ? : Set<Long> } tags Set<String> ;` -/
+example : printEntity ⟨["User"], [⟨["NS"], "Group"⟩, ⟨[], "Team"⟩],
+      .cons "name" true (.ident ⟨[], "String"⟩) (.cons "has space" false (.set (.ident ⟨[], "Long"⟩)) .nil),
+      some (.set (.ident ⟨[], "String"⟩))⟩ =
+    [.id "entity", .id "User", .id "in", .other "[", .id "NS", .dcolon, .id "Group", .comma, .id "Team", .other "]",
+     .other "=", .lb, .id "name", .colon, .id "String", .comma, .str "has space", .q, .colon, .id "Set", .lt, .id "Long", .gt, .rb,
+     .id "tags", .id "Set", .lt, .id "String", .gt, .other ";"] := by decide
+
+/-- nothing optional: `entity E;` -/
+example : parseEntityDecl (printEntity ⟨["E"], [], .nil, none⟩) = some ⟨["E"], [], .nil, none⟩ :=
+  decl_roundtrip _ ⟨by simp, by simp; decide, by simp, by simp [WFA], by simp⟩
+
+/-- the parser accepts the forms only the Cedar syntax has: several names, no `=`, a bare path after `in`, `{}` -/
+theorem decl_parser_accepts_more :
+    parseEntityDecl [.id "entity", .id "A", .comma, .id "B", .id "in", .id "G", .lb, .id "x", .colon, .id "Long", .rb, .other ";"] =
+      some ⟨["A", "B"], [⟨[], "G"⟩], .cons "x" true (.ident ⟨[], "Long"⟩) .nil, none⟩ ∧
+    parseEntityDecl [.id "entity", .id "A", .id "in", .other "[", .other "]", .other "=", .lb, .rb, .id "tags", .id "String", .other ";"] =
+      some ⟨["A"], [], .nil, some (.ident ⟨[], "String"⟩)⟩ ∧
+    parseEntityDecl [.id "entity", .id "A", .other "=", .other ";"] = none ∧
+    parseEntityDecl [.id "entity", .id "A", .comma, .other ";"] = none ∧
+    parseEntityDecl [.id "entity", .id "if", .other ";"] = none ∧
+    parseEntityDecl [.id "entity", .id "__cedar", .other ";"] = none := by
+  refine ⟨by rfl, by rfl, by rfl, by rfl, by rfl, by rfl⟩
 
 end Cedar.C09
